@@ -147,6 +147,11 @@ def _admission(ctx, nz, put, pred):
                'self.%s(...)' % pname)
 
 
+def _node_func(node):
+    graph = getattr(node, 'cfg', None)
+    return getattr(graph, 'func', None)
+
+
 def _effects_put(node, appvar):
     """Effects of a node of Server.put: indices of
     (capacity, apps, server, affinity)."""
@@ -187,8 +192,9 @@ def _effects_put(node, appvar):
     for call in C.node_calls(node):
         if K.is_meth(call, 'increment_affinity') and \
                 K.recv_text(call) == 'self':
-            if call.args and N.txt(call.args[0]) == \
-                    '[%s.affinity.name]' % appvar:
+            if call.args and K.singleton_of(
+                    _node_func(node), call.args[0],
+                    '%s.affinity.name' % appvar):
                 out.append(3)
             else:
                 out.append('bad:increment_affinity of something else')
@@ -237,8 +243,9 @@ def _effects_remove(node, keyvar, appvar):
             out.append(1)
         if K.is_meth(call, 'decrement_affinity') and \
                 K.recv_text(call) == 'self':
-            if call.args and N.txt(call.args[0]) == \
-                    '[%s.affinity.name]' % appvar:
+            if call.args and K.singleton_of(
+                    _node_func(node), call.args[0],
+                    '%s.affinity.name' % appvar):
                 out.append(3)
             else:
                 out.append('bad:decrement_affinity of something else')
